@@ -178,3 +178,272 @@ Proof.
   - apply has_child_spec in E2. destruct E2 as [q [Hu Hl]]. rewrite <- H in Hl by assumption.
     assert (X : has_child f d = true) by (apply has_child_spec; eauto). congruence.
 Qed.
+
+(* ------------------------------------------------------------------ effects *)
+Definition touched (e : eff) : list path :=
+  match e with
+  | ENone => []
+  | ESet p _ => [p]
+  | EDel p => [p]
+  | EMove p q _ => [p; q]
+  end.
+
+Lemma lookup_apply_untouched : forall e f x, ~ In x (touched e) -> lookup (apply e f) x = lookup f x.
+Proof.
+  intros e f x H. destruct e; cbn [apply touched In] in *.
+  - reflexivity.
+  - rewrite lookup_set. destruct (path_eqb p x) eqn:E; [apply path_eqb_eq in E; subst; tauto | reflexivity].
+  - rewrite lookup_remove. destruct (path_eqb p x) eqn:E; [apply path_eqb_eq in E; subst; tauto | reflexivity].
+  - rewrite lookup_set, lookup_remove.
+    destruct (path_eqb q x) eqn:E; [apply path_eqb_eq in E; subst; tauto|].
+    destruct (path_eqb p x) eqn:E2; [apply path_eqb_eq in E2; subst; tauto | reflexivity].
+Qed.
+
+Lemma lookup_apply_ext : forall e f f' x,
+  In x (touched e) \/ lookup f x = lookup f' x -> lookup (apply e f) x = lookup (apply e f') x.
+Proof.
+  intros e f f' x H. destruct e; cbn [apply touched In] in *.
+  - destruct H as [[]|H]; assumption.
+  - rewrite !lookup_set. destruct (path_eqb p x) eqn:E; [reflexivity|].
+    destruct H as [[H|[]]|H]; [subst; rewrite path_eqb_refl in E; discriminate | assumption].
+  - rewrite !lookup_remove. destruct (path_eqb p x) eqn:E; [reflexivity|].
+    destruct H as [[H|[]]|H]; [subst; rewrite path_eqb_refl in E; discriminate | assumption].
+  - rewrite !lookup_set, !lookup_remove. destruct (path_eqb q x) eqn:E; [reflexivity|].
+    destruct (path_eqb p x) eqn:E2; [reflexivity|].
+    destruct H as [[H|[H|[]]]|H]; subst; try (rewrite path_eqb_refl in *; discriminate); assumption.
+Qed.
+
+(* ------------------------------------------------------------------ tactics for decide *)
+Ltac dcase H :=
+  match type of H with
+  | context [match lookup ?f ?p with _ => _ end] =>
+      let E := fresh "EL" in destruct (lookup f p) as [[[|] ?]|] eqn:E; try discriminate H
+  | context [if ?x then _ else _] =>
+      let E := fresh "E" in destruct x eqn:E; try discriminate H
+  end.
+
+Ltac norm :=
+  repeat match goal with
+  | H : _ || _ = true |- _ => apply orb_true_iff in H
+  | H : _ || _ = false |- _ => apply orb_false_iff in H; destruct H
+  | H : mem _ _ = true |- _ => apply mem_In in H
+  | H : mem _ _ = false |- _ => apply mem_false in H
+  | H : path_eqb _ _ = true |- _ => apply path_eqb_eq in H; subst
+  | H : path_eqb _ _ = false |- _ => apply path_eqb_neq in H
+  end.
+
+Ltac decide_inv H :=
+  unfold decide in H;
+  match type of H with context [match ?o with OpenR _ => _ | _ => _ end] => destruct o end;
+  repeat dcase H; inversion H; subst; clear H.
+
+(* ------------------------------------------------------------------ creatable *)
+Lemma creatable_spec : forall c b p, creatable c b p = true ->
+  (exists n, p = c_scratch c ++ [n]) \/ (exists d n, In d (b_dirs b) /\ p = d ++ [n]).
+Proof.
+  intros c b p H. unfold creatable in H. apply orb_true_iff in H. destruct H as [H|H].
+  - left. apply child_of_spec. assumption.
+  - right. apply existsb_exists in H. destruct H as [d [Hd Hc]]. apply child_of_spec in Hc.
+    destruct Hc as [n Hn]. eauto.
+Qed.
+
+Lemma top_name_child : forall c n, top_name c (c_scratch c ++ [n]) = [n].
+Proof. intros. unfold top_name. rewrite strip_app. reflexivity. Qed.
+
+(* ------------------------------------------------------------------ invariant on the book-keeping *)
+Definition inv (c : config) (N : list Z) (b : bk) : Prop :=
+  (forall p, In p (b_created b) -> In p (b_owned b) \/ in_cone c N p = true) /\
+  (forall d, In d (b_dirs b) -> in_cone c N d = true) /\
+  (forall p, In p (b_owned b) -> In p (c_outputs c)).
+
+Lemma inv_bk0 : forall c N, inv c N bk0.
+Proof. intros. repeat split; simpl; intros; contradiction. Qed.
+
+Lemma in_cone_app : forall c N d n, in_cone c N d = true -> in_cone c N (d ++ [n]) = true.
+Proof.
+  intros c N d n H. unfold in_cone in *. apply existsb_exists in H. destruct H as [k [Hk Hp]].
+  apply existsb_exists. exists k. split; [assumption|].
+  eapply is_prefix_trans; [exact Hp|]. apply is_prefix_spec. eauto.
+Qed.
+
+Lemma in_cone_under : forall c N d p, in_cone c N d = true -> under d p = true -> in_cone c N p = true.
+Proof.
+  intros c N d p H Hu. unfold in_cone in *. apply existsb_exists in H. destruct H as [k [Hk Hp]].
+  apply existsb_exists. exists k. split; [assumption|].
+  eapply is_prefix_trans; [exact Hp|]. apply under_is_prefix. assumption.
+Qed.
+
+Lemma in_cone_top : forall c N n, In n N -> in_cone c N (c_scratch c ++ [n]) = true.
+Proof.
+  intros. unfold in_cone. apply existsb_exists. exists n. split; [assumption|].
+  apply is_prefix_spec. exists []. rewrite app_nil_r. reflexivity.
+Qed.
+
+Lemma in_cone_mono : forall c N N' p, incl N N' -> in_cone c N p = true -> in_cone c N' p = true.
+Proof.
+  intros c N N' p Hi H. unfold in_cone in *. apply existsb_exists in H. destruct H as [k [Hk Hp]].
+  apply existsb_exists. exists k. split; [apply Hi; assumption | assumption].
+Qed.
+
+Lemma creatable_cone : forall c N b p,
+  inv c N b -> incl (top_name c p) N -> creatable c b p = true -> in_cone c N p = true.
+Proof.
+  intros c N b p [_ [Hd _]] Hn H. apply creatable_spec in H. destruct H as [[n H]|[d [n [Hi H]]]]; subst.
+  - rewrite top_name_child in Hn. apply in_cone_top. apply Hn. left. reflexivity.
+  - apply in_cone_app. apply Hd. assumption.
+Qed.
+
+Ltac bk_simpl :=
+  cbn [b_created b_dirs b_owned b_done with_created with_owned with_dirs finished] in *.
+
+Ltac in_simpl :=
+  repeat (match goal with
+          | H : In _ (add _ _) |- _ => apply In_add in H
+          | H : In _ (del _ _) |- _ => apply In_del in H
+          | |- In _ (add _ _) => apply In_add
+          | |- In _ (del _ _) => apply In_del
+          end).
+
+Lemma decide_keeps_inv : forall c N f b o e b',
+  inv c N b -> incl (op_fresh c o) N -> decide c f b o = Ok (e, b') -> inv c N b'.
+Proof.
+  intros c N f b o e b' Hinv Hn H.
+  assert (HC : forall p, incl (top_name c p) N -> creatable c b p = true -> in_cone c N p = true)
+    by (intros; eapply creatable_cone; eauto).
+  destruct Hinv as [I1 [I2 I3]].
+  decide_inv H; norm; try (repeat split; assumption);
+    cbn [op_fresh] in Hn;
+    (repeat split; bk_simpl; intros x Hx; in_simpl;
+     try (destruct Hx as [Hx|Hx]; [subst|]); in_simpl; eauto;
+     try (destruct Hx as [Hx1 Hx2]); eauto).
+  all: try (left; apply In_add; eauto; fail).
+  all: try (destruct (I1 _ Hx) as [Ho|Hc]; [left; apply In_add; auto | right; assumption]; fail).
+  all: try (destruct (I1 _ Hx2) as [Ho|Hc]; [left; try apply In_add; auto | right; assumption]; fail).
+Qed.
+
+(* mut_on_created: every mutated path is one this run created (before or by this op),
+   one of its fresh directories, or the writable query file *)
+Lemma decide_touched : forall c f b o e b' x,
+  decide c f b o = Ok (e, b') -> In x (touched e) ->
+  In x (b_created b) \/ In x (b_created b') \/ In x (b_dirs b) \/ wq c x = true.
+Proof.
+  intros c f b o e b' x H Hx.
+  decide_inv H; norm; cbn [touched In] in Hx; bk_simpl;
+    repeat (destruct Hx as [Hx|Hx]; [subst|]); try contradiction; auto.
+  all: try (destruct E as [E|E]; norm; auto; fail).
+  all: try (right; left; apply In_add; auto; fail).
+  destruct E0 as [E0|E0]; norm; auto.
+Qed.
+
+Lemma decide_owned_mono : forall c f b o e b' x,
+  decide c f b o = Ok (e, b') -> In x (b_owned b) -> In x (b_owned b').
+Proof.
+  intros c f b o e b' x H Hx.
+  decide_inv H; bk_simpl; auto; apply In_add; auto.
+Qed.
+
+Lemma decide_new_owned : forall c f b o e b' x,
+  decide c f b o = Ok (e, b') -> In x (b_owned b') -> In x (b_owned b) \/ In x (touched e).
+Proof.
+  intros c f b o e b' x H Hx.
+  decide_inv H; bk_simpl; auto; apply In_add in Hx; destruct Hx as [Hx|Hx]; subst; auto;
+    right; cbn [touched In]; auto.
+Qed.
+
+Lemma decide_not_done : forall c f b o e b', decide c f b o = Ok (e, b') -> b_done b = false.
+Proof.
+  intros c f b o e b' H. unfold decide in H. destruct (b_done b); [discriminate | reflexivity].
+Qed.
+
+(* ------------------------------------------------------------------ what decide looks at *)
+Definition readable (c : config) (b : bk) (o : op) (p : path) : Prop :=
+  match o with
+  | OpenR x => p = x /\ (mem x (c_inputs c) || mem x (b_created b) = true)
+  | OpenW x _ => p = x /\ (mem x (b_created b) || wq c x = true)
+  | Create x _ _ => p = x /\ (mem x (b_created b) = true \/
+                              (mem x (c_outputs c) = false /\ creatable c b x = true))
+  | Mkdir x => p = x /\ mem x (c_outputs c) = false /\ creatable c b x = true
+  | Unlink x => p = x /\ mem x (b_created b) = true
+  | Rmdir x => mem x (b_dirs b) = true /\ (p = x \/ under x p = true)
+  | Rename x y => mem x (b_created b) = true /\
+                  (p = x \/ (p = y /\ (mem y (b_created b) = true \/
+                                       (mem y (c_outputs c) = false /\ creatable c b y = true))))
+  | ListDir _ | Return _ => False
+  end.
+
+Lemma decide_ext : forall c f f' b o,
+  (forall p, readable c b o p -> lookup f p = lookup f' p) -> decide c f b o = decide c f' b o.
+Proof.
+  intros c f f' b o H. unfold decide. destruct (b_done b); [reflexivity|].
+  destruct o as [x|x cid|x t cid|x|x|x|x y|x|ok]; cbn [readable] in H.
+  - destruct (mem x (c_inputs c) || mem x (b_created b)) eqn:E; [|reflexivity].
+    rewrite (H x) by auto. reflexivity.
+  - destruct (mem x (b_created b) || wq c x) eqn:E; [|reflexivity].
+    rewrite (H x) by auto. reflexivity.
+  - destruct (mem x (b_created b)) eqn:E1; [rewrite (H x) by auto; reflexivity|].
+    destruct (mem x (c_outputs c)) eqn:E2; [reflexivity|].
+    destruct (creatable c b x) eqn:E3; [|reflexivity]. rewrite (H x) by auto. reflexivity.
+  - destruct (mem x (c_outputs c)) eqn:E2; [reflexivity|].
+    destruct (creatable c b x) eqn:E3; [|reflexivity]. rewrite (H x) by auto. reflexivity.
+  - destruct (mem x (b_created b)) eqn:E1; [|reflexivity]. rewrite (H x) by auto. reflexivity.
+  - destruct (mem x (b_dirs b)) eqn:E1; [|reflexivity]. rewrite (H x) by auto.
+    rewrite (has_child_ext f f' x) by (intros; apply H; auto). reflexivity.
+  - destruct (mem x (b_created b)) eqn:E1; [|reflexivity]. rewrite (H x) by auto.
+    destruct (lookup f' x) as [[[|] cid]|]; try reflexivity.
+    destruct (path_eqb x y); [reflexivity|].
+    destruct (mem y (b_created b)) eqn:E2; [rewrite (H y) by auto; reflexivity|].
+    destruct (mem y (c_outputs c)) eqn:E3; [reflexivity|].
+    destruct (creatable c b y) eqn:E4; [|reflexivity]. rewrite (H y) by auto 6. reflexivity.
+  - reflexivity.
+  - reflexivity.
+Qed.
+
+(* the part of the file system a run depends on, given the names N it makes in scratch *)
+Definition region (c : config) (N : list Z) (b : bk) (p : path) : Prop :=
+  in_cone c N p = true \/ In p (c_inputs c) \/ wq c p = true \/ In p (b_owned b).
+
+Lemma readable_region : forall c N b o p,
+  inv c N b -> incl (op_fresh c o) N -> readable c b o p -> region c N b p.
+Proof.
+  intros c N b o p Hinv Hn H.
+  assert (HC : forall p, incl (top_name c p) N -> creatable c b p = true -> in_cone c N p = true)
+    by (intros; eapply creatable_cone; eauto).
+  destruct Hinv as [I1 [I2 I3]]. unfold region.
+  assert (CR : forall x, In x (b_created b) -> in_cone c N x = true \/ In x (c_inputs c) \/ wq c x = true \/ In x (b_owned b))
+    by (intros x Hx; destruct (I1 _ Hx); auto).
+  destruct o as [x|x cid|x t cid|x|x|x|x y|x|ok]; cbn [readable op_fresh] in *.
+  - destruct H as [-> H]. norm. destruct H as [H|H]; norm; auto.
+  - destruct H as [-> H]. norm. destruct H as [H|H]; norm; auto.
+  - destruct H as [-> [H|[H1 H2]]]; norm; auto.
+  - destruct H as [-> [H1 H2]]. auto.
+  - destruct H as [-> H]. norm. auto.
+  - destruct H as [H [->|Hu]]; norm.
+    + left. auto.
+    + left. eapply in_cone_under; eauto.
+  - destruct H as [H [->|[-> [H2|[H2 H3]]]]]; norm; auto.
+  - contradiction.
+  - contradiction.
+Qed.
+
+Definition agree (P : path -> Prop) (f f' : fs) : Prop := forall p, P p -> lookup f p = lookup f' p.
+
+(* one step of the same run on two file systems that agree on the run's region *)
+Lemma step_sim : forall c N f f' b o g b',
+  inv c N b -> incl (op_fresh c o) N -> agree (region c N b) f f' ->
+  step c f b o = Ok (g, b') ->
+  exists g', step c f' b o = Ok (g', b') /\ agree (region c N b') g g' /\
+             (forall x, lookup f x = lookup f' x -> lookup g x = lookup g' x).
+Proof.
+  intros c N f f' b o g b' Hinv Hn Ha H. unfold step in *.
+  destruct (decide c f b o) as [[e b1]|code] eqn:D; [|discriminate]. inversion H; subst; clear H.
+  rewrite <- (decide_ext c f f' b o) by (intros p Hp; apply Ha; eapply readable_region; eauto).
+  rewrite D. eexists. split; [reflexivity|]. split.
+  - intros x Hx. apply lookup_apply_ext.
+    destruct Hx as [Hx|[Hx|[Hx|Hx]]].
+    + right. apply Ha. left. assumption.
+    + right. apply Ha. right. left. assumption.
+    + right. apply Ha. right. right. left. assumption.
+    + destruct (decide_new_owned _ _ _ _ _ _ _ D Hx) as [Ho|Ht]; [|left; assumption].
+      right. apply Ha. right. right. right. assumption.
+  - intros x Hx. apply lookup_apply_ext. right. assumption.
+Qed.
